@@ -49,7 +49,7 @@ def snapshot_fn(solver_obj):
 
 def run_lp(spec, opts, workdir, rng, inject=True, noise=True, second_side=None,
            time_limit=None, faults=None, clock=None, getters=('short', 'long', 'debug'),
-           text=None, argv=None):
+           text=None, argv=None, decoy_argv=None):
     """One monitored execution of the real Solver.  Never raises."""
     from matchingproblems.solver import Solver
     import matchingproblems.solver.solver as solver_mod
@@ -83,6 +83,14 @@ def run_lp(spec, opts, workdir, rng, inject=True, noise=True, second_side=None,
             return ex
         ex['solver'] = s
         TAP.snapshot = snapshot_fn(s)
+        decoy = None
+        if decoy_argv is not None:
+            # another live Solver object on the same file with other options, constructed
+            # between this object's construction and its solve (and solved before its getters)
+            try:
+                decoy = Solver(['-f', path] + list(decoy_argv))
+            except BaseException:
+                decoy = None
         try:
             if time_limit is None:
                 s.solve()
@@ -90,6 +98,13 @@ def run_lp(spec, opts, workdir, rng, inject=True, noise=True, second_side=None,
                 s.solve(timeLimit=time_limit)
         except Exception as e:
             ex['exc'] = dict(exc_info(e), phase='solve')
+        if decoy is not None:
+            TAP.enabled = False
+            try:
+                decoy.solve()
+                decoy.get_results()
+            except BaseException:
+                pass
         ex['events'] = list(TAP.events)
         ex['inj'] = dict(TAP.inj)
         ex['prob'] = TAP.probs[-1] if TAP.probs else None
